@@ -288,6 +288,11 @@ class CollectionSummaryManager:
                     self._tables.dimensions[dimension],
                     *[{self._collectionKeyName: collection.key, dimension: v} for v in values],
                 )
+        if self._caching_context.collection_summaries is not None:
+            # Summaries cached before this write (for this collection and for
+            # every chain that includes it) no longer describe the tables;
+            # drop them so that the client sees its own write.
+            self._caching_context.collection_summaries.clear()
 
     def fetch_summaries(
         self,
